@@ -821,12 +821,30 @@ void uninitialized_copy_aux(It1 first1, It1 last1, It2 first2, It2 last2, planar
     }
 }
 
+/// std::uninitialized_copy into iterators over pixels that are objects in memory
+template <typename It1, typename It2>
+BOOST_FORCEINLINE
+void uninitialized_copy_interleaved(It1 first1, It1 last1, It2 first2, std::true_type)
+{
+    std::uninitialized_copy(first1, last1, first2);
+}
+
+/// Iterators whose reference is a proxy (bit-aligned pixels) address bits, not objects:
+/// there is nothing to construct in place, the pixels are assigned through the proxy
+template <typename It1, typename It2>
+BOOST_FORCEINLINE
+void uninitialized_copy_interleaved(It1 first1, It1 last1, It2 first2, std::false_type)
+{
+    std::copy(first1, last1, first2);
+}
+
 /// std::uninitialized_copy for interleaved or mixed(planar into interleaved) iterators
 template <typename It1, typename It2>
 BOOST_FORCEINLINE
 void uninitialized_copy_aux(It1 first1, It1 last1, It2 first2, It2, mixed_to_interleaved_type)
 {
-    std::uninitialized_copy(first1, last1, first2);
+    uninitialized_copy_interleaved(first1, last1, first2,
+        typename std::is_reference<typename std::iterator_traits<It2>::reference>::type());
 }
 
 /// std::uninitialized_copy for interleaved to planar iterators
